@@ -403,10 +403,49 @@ def _walk(ctx, ops, depth, st_):
                 st_['wide'] = True
 
 
+def run_after_errors(ctx, case):
+    """One parser object (as a dumper keeps it for a whole process): n corrupt expressions whose defect sits inside nested blocks are
+    rejected, then well-formed expressions - with nested blocks, also nested far deeper than anything a producer emits - must parse to
+    the model as on a fresh parser."""
+    L = lib()
+    le, fmt, asz, ver = bool(case['le']), case['fmt'], case['asz'], case['ver']
+    parser = L.DE.DWARFExprParser(L.DWARFStructs(little_endian=le, dwarf_format=fmt, address_size=asz, dwarf_version=ver))
+    rejected = 0
+    for k in range(case['n']):
+        depth = 1 + k % 4
+        ops = [0x31, []]
+        for _ in range(depth):
+            ops = [0xa3 if k % 2 else 0xf3, [[ops, [0x08, [k & 0xff]]]]]
+        data, _exp = X.encode([ops], le, fmt, asz)
+        bad = data[:-1] if k % 3 else data[:-2] + b'\x03'          # innermost operand cut off / replaced by an operation that lacks its operand
+        try:
+            parser.parse_expr(list(bad))
+        except Exception:  # noqa   (which exception is not this check's business)
+            rejected += 1
+    good = [[0xa3, [[[0x50, []], [0x23, [8]]]]], [0x9f, []]]
+    deep = [0x50, []]
+    for _ in range(case.get('deep', 250)):
+        deep = [0xa3, [[deep]]]
+    for name, ops in (('nested', good), ('nested-%d-deep' % case.get('deep', 250), [deep, [0x9f, []]])):
+        data, exp = X.encode(ops, le, fmt, asz)
+        for who, p_ in (('used', parser), ('fresh', L.DE.DWARFExprParser(L.DWARFStructs(little_endian=le, dwarf_format=fmt, address_size=asz, dwarf_version=ver)))):
+            try:
+                g = canon(p_.parse_expr(list(data)))
+                if g != exp:
+                    ctx.fail('after-errors|%s|%s-parser|result-differs' % (name, who), 'after %d rejected expressions' % rejected, case)
+            except Exception as e:  # noqa
+                ctx.fail('after-errors|%s|%s-parser|raises=%s' % (name, who, type(e).__name__), 'a well-formed expression is refused after %d rejected ones: %s' % (rejected, str(e)[:100]), case)
+    ctx.count('after-errors.parsers')
+    ctx.count('after-errors.rejected', rejected)
+    ctx.case(('after-errors', le, fmt, asz, ver, case['n']), True, dict(case))
+
+
 def run_case(ctx, case):
     if case['k'] == 'tables':
         check_tables(ctx, case)
         return
+    if case['k'] == 'after-errors':
+        return run_after_errors(ctx, case)
     le, fmt, asz, ver = bool(case['le']), case['fmt'], case['asz'], case['ver']
     cell = (le, fmt, asz, ver)
     ops = case['ops']
@@ -819,6 +858,8 @@ def sweep(tier):
         # one long expression per cell
         n = 200 if tier == 'quick' else 2000
         cases.append(mk_case(cell, [gen_op(r, cell, 0) for _ in range(n)]))
+        if cell[3] == 5 and cell[2] == 8:
+            cases.append({'k': 'after-errors', 'le': cell[0], 'fmt': cell[1], 'asz': cell[2], 'ver': cell[3], 'n': 300 if tier == 'quick' else 3000, 'deep': 250})
     return cases
 
 
